@@ -8,6 +8,16 @@ COMMON_NOTE = ("Trusted: Lean 4.33 kernel; axioms propext/Classical.choice/Quot.
                "the extractor and the differential harness; the Lean compiler only to execute the oracle. ")
 
 TEXTS = {
+    "C06": {
+        "text": "Theorems for all strings: scan_quoteString (QuoteString(s) scans as one STRING with value s and stops exactly at the "
+                "closing quote, for every s without NUL/CR, at any cursor and before any following text), quoteString_contained (for "
+                "EVERY s: that STRING or a BADSTRING token - never a bad escape, never an early end, never absorbing what follows), "
+                "scan_quotedIdent_contained (same for double-quoted identifiers), bare_ident_scans (IdentNeedsQuotes(s)=false => s "
+                "written bare scans as IDENT s and QuoteIdent leaves it bare), keywords_need_quotes, over replacer tables regenerated "
+                "from /repo each run. The converse direction of IdentNeedsQuotes and multi-part names are tied by the property "
+                "oracle over the whole BMP and random strings, not by a theorem (stated in DESIGN.md).",
+        "note": COMMON_NOTE + "strings.NewReplacer and ToLower are re-implemented in the model and corresponded on the whole BMP.",
+    },
     "C08": {
         "text": "Theorems over the Lean model of ParseDuration/FormatDuration for all texts and all 64-bit values (parse_exact, "
                 "parse_complete, parse_overflow_rejected, parse_format, format_largest_unit) over unit/ladder tables regenerated from "
